@@ -63,3 +63,14 @@ func VerifHarness_C01_Recovery() {
 		verifReach("truncated")
 	}
 }
+
+// C10: the recovery searches are total on arbitrary query bytes
+func VerifHarness_C10_RecoveryBytes() {
+	db := c01RecoveryDB()
+	q := verifString("q", 3)
+	res, err := NewSearchRecovery().RecoverFromSearchFailureWithLimit(q, nil, db, verifInt("limit"))
+	if err != nil {
+		verifAssert(len(res) == 0, "C10: failed recovery returns nothing")
+	}
+	verifReach("returned")
+}
